@@ -5,6 +5,10 @@
 // LegacyServer router), registration changes (refresh grant withdrawn / restored), and refresh requests with symbolic
 // operands (token = live / rotated / unknown of lineage #k, caller = owner / foreign client, credential presentation,
 // scope relation). The oracle is a lineage model written from the statement; it never calls pkg/op.
+// Registrations as data (Case.Reg): a second confidential client, client ids and secrets over a three-letter alphabet
+// (ids that are prefixes / extensions of each other), and a storage whose view of the credentials changes during the
+// history (secret rotated / removed / restored, client deleted / re-registered); audiences that name further registered
+// clients (Case.AudClients).
 // Concurrent histories (several refresh requests in flight at once, harness-owned interleaving) are in interleave_test.go.
 package c07
 
@@ -37,6 +41,10 @@ type Op struct {
 
 	// issue: Client = owner, User, Scopes = scopes of the authorization request
 	// grant: Client, On (refresh grant present in the registration afterwards)
+	// reg: Client, On (the storage knows the client afterwards; off = deleted, its tokens stay in the storage)
+	// secret: the storage's secret of a confidential client changes. Client selects among the secret clients (ViaLin: the
+	//         client of lineage Lin when that is a secret client); Change = new (New) | remove | previous (the oldest secret
+	//         the client had before; none: New) | others (the current secret of the other secret client)
 	Client int      `json:"client,omitempty"`
 	User   int      `json:"user,omitempty"`
 	Scopes []string `json:"scopes,omitempty"`
@@ -47,19 +55,32 @@ type Op struct {
 	Tok        string `json:"tok,omitempty"`     // live | old | unknown
 	Age        int    `json:"age,omitempty"`     // old: how many rotations back
 	Unknown    string `json:"unknown,omitempty"` // random | flipped | suffixed | access | empty
-	Who        int    `json:"who,omitempty"`     // 0: the lineage's client, 1/2: the next / second next client (foreign)
-	Pres       string `json:"pres,omitempty"`    // right | wrong_secret | id_only | bad_assertion | presentations that name no client at all (whatever kind the token's client is): anonymous | empty_id | empty_id_secret | basic_empty_user | empty_assertion
+	Who        int    `json:"who,omitempty"`     // 0: the lineage's client, k>0: the k-th next client (foreign; wraps around skipping the owner)
+	Pres       string `json:"pres,omitempty"`    // right | wrong_secret | id_only | bad_assertion | secrets built from what the storage knows or knew (right only if the string happens to be the caller's current secret): old_secret (one the client had earlier in the history) | other_secret (current secret of another secret client) | shifted_secret (s with callerID+s == otherID+otherSecret, for ids that are prefixes of each other) | presentations that name no client at all (whatever kind the token's client is): anonymous | empty_id | empty_id_secret | basic_empty_user | empty_assertion
 	Scope      string `json:"scope,omitempty"`   // absent | equal | permuted | subset | duplicate | orig | superset | widenback | disjoint | empty | spaces
 	Sel        int    `json:"sel,omitempty"`     // selector bits (subset members, position of the extra scope)
 	Extra      int    `json:"extra,omitempty"`   // which never-granted scope is added
 	Introspect bool   `json:"introspect,omitempty"`
 	ClaimID    bool   `json:"claim_id,omitempty"` // Basic / assertion presentations: additionally send client_id=<the lineage's client> in the form
 	Par        *Par   `json:"par,omitempty"`      // kind par
+	Change     string `json:"change,omitempty"`   // kind secret
+	New        string `json:"new,omitempty"`      // kind secret
+	ViaLin     bool   `json:"via_lin,omitempty"`  // kind secret
 	In         string `json:"in,omitempty"`       // where the parameters travel: "" = POST body | query-grant (grant_type in the URL query, rest in the body) | query-token (refresh_token in the URL query) | query-client (client_id only in the URL query) | query-all (POST, everything in the URL query) | get (GET request)
 }
 
+// Reg = registrations as data: four clients (conf, pub, pkj and a second confidential client conf2) whose ids and
+// secrets are short strings over one small alphabet, so that ids are prefixes / extensions of each other and
+// id+secret concatenations of different clients coincide.
+type Reg struct {
+	IDs       [4]string `json:"ids"`     // conf, pub, pkj, conf2 (distinct, non-empty)
+	Secrets   [2]string `json:"secrets"` // initial secrets of conf, conf2
+	Conf2     ClientCfg `json:"conf2"`
+	Conf2Post bool      `json:"conf2_post,omitempty"` // conf2 authenticates with client_secret_post (else client_secret_basic)
+}
+
 type Case struct {
-	ErrStyle string `json:"err_style,omitempty"` // how the storage words its own refusals (vkit.Store.refuse)
+	ErrStyle       string       `json:"err_style,omitempty"`       // how the storage words its own refusals (vkit.Store.refuse)
 	Conf           string       `json:"conf"`                      // auth method of the confidential client
 	SignAlg        string       `json:"sign_alg"`                  // RS256 | ES256
 	Clients        [3]ClientCfg `json:"clients"`                   // conf, pub, pkj
@@ -67,6 +88,8 @@ type Case struct {
 	NarrowPersists bool         `json:"narrow_persists,omitempty"` // storage policy: a narrowed scope becomes the lineage's grant
 	ExtraAud       bool         `json:"extra_aud,omitempty"`       // tokens carry an additional audience
 	NoRotate       bool         `json:"no_rotate,omitempty"`       // storage policy: a refresh keeps the refresh token (the storage hands the presented string back as the new one)
+	Reg            *Reg         `json:"reg,omitempty"`             // nil: three clients "conf" / "pub" / "pkj", secret "secret-conf"
+	AudClients     int          `json:"aud_clients,omitempty"`     // bit i: the storage puts the id of client i into the audience of every grant (all applications of a project)
 	Ops            []Op         `json:"ops"`
 }
 
@@ -80,7 +103,7 @@ var (
 func genIssue(t *rapid.T, label string) Op {
 	op := Op{Kind: "issue"}
 	op.Legacy = rapid.Bool().Draw(t, label+"legacy")
-	op.Client = rapid.IntRange(0, 2).Draw(t, label+"client")
+	op.Client = rapid.IntRange(0, 3).Draw(t, label+"client") // taken modulo the number of clients
 	op.User = rapid.IntRange(0, 5).Draw(t, label+"user")
 	sc := []string{"openid"}
 	if rapid.IntRange(0, 19).Draw(t, label+"offline") != 13 {
@@ -103,14 +126,14 @@ var (
 	okScopes  = []string{"absent", "absent", "equal", "permuted", "subset", "subset", "subset", "subset", "duplicate"}
 	badScopes = []string{"superset", "superset", "widenback", "widenback", "orig", "disjoint", "empty", "spaces"}
 	allScopes = append(append([]string{}, okScopes...), badScopes...)
-	badPres   = []string{"wrong_secret", "id_only", "bad_assertion"}
+	badPres   = []string{"wrong_secret", "id_only", "bad_assertion", "old_secret", "old_secret", "other_secret", "shifted_secret", "shifted_secret"}
 	// presentations that do not say which client is asking (no client_id, an empty one, Basic with an empty user, an empty
 	// assertion): the caller is nobody, so no refresh token - of a public client either - may be served
 	unidentPres = []string{"anonymous", "anonymous", "empty_id", "empty_id_secret", "basic_empty_user", "empty_assertion"}
 	anyBadPres  = append(append([]string{}, badPres...), unidentPres...)
 	// parameter placement: the endpoints read the URL query as well as the body, so every guard has to hold wherever a parameter travels
 	placements = []string{"", "", "", "", "", "", "query-grant", "query-grant", "query-all", "get", "query-token", "query-client"}
-	unknowns  = []string{"random", "flipped", "suffixed", "access", "empty"}
+	unknowns   = []string{"random", "flipped", "suffixed", "access", "empty"}
 )
 
 // validRefresh draws a refresh op that the model accepts when the lineage is live, its client registered and the deployment enabled.
@@ -134,7 +157,7 @@ func genRefresh(t *rapid.T, label string) Op {
 	case "token":
 		op.Tok = rapid.SampledFrom([]string{"old", "old", "unknown"}).Draw(t, label+"tok")
 	case "caller":
-		op.Who = rapid.IntRange(1, 2).Draw(t, label+"who")
+		op.Who = rapid.IntRange(1, 3).Draw(t, label+"who")
 	case "pres":
 		op.Pres = rapid.SampledFrom(badPres).Draw(t, label+"pres")
 	case "unident":
@@ -143,7 +166,7 @@ func genRefresh(t *rapid.T, label string) Op {
 		op.Scope = rapid.SampledFrom(badScopes).Draw(t, label+"badscope")
 	case "multi":
 		op.Tok = rapid.SampledFrom([]string{"live", "live", "old", "unknown"}).Draw(t, label+"tok")
-		op.Who = rapid.SampledFrom([]int{0, 0, 1, 2}).Draw(t, label+"who")
+		op.Who = rapid.SampledFrom([]int{0, 0, 1, 2, 3}).Draw(t, label+"who")
 		op.Pres = rapid.SampledFrom(append([]string{"right", "right", "right"}, anyBadPres...)).Draw(t, label+"pres")
 		op.Scope = rapid.SampledFrom(allScopes).Draw(t, label+"anyscope")
 	}
@@ -152,8 +175,60 @@ func genRefresh(t *rapid.T, label string) Op {
 	}
 	if op.Tok == "unknown" {
 		op.Unknown = rapid.SampledFrom(unknowns).Draw(t, label+"unknown")
-		op.Client = rapid.IntRange(0, 2).Draw(t, label+"client")
+		op.Client = rapid.IntRange(0, 3).Draw(t, label+"client")
 	}
+	return op
+}
+
+// names: ids and secrets are drawn from one three-letter alphabet
+func genName(t *rapid.T, label string, min, max int) string {
+	return rapid.StringOfN(rapid.RuneFrom([]rune{'a', 'b', '1'}), min, max, -1).Draw(t, label)
+}
+
+func genReg(t *rapid.T) *Reg {
+	r := &Reg{}
+	short := genName(t, "reg.short", 1, 3)
+	suffix := genName(t, "reg.suffix", 1, 2)
+	rel := rapid.SampledFrom([]string{"conf-shorter", "conf2-shorter", "independent"}).Draw(t, "reg.relation")
+	shorter := -1 // index into Secrets of the client whose id is a proper prefix of the other one's
+	switch rel {
+	case "conf-shorter":
+		r.IDs[0], r.IDs[3], shorter = short, short+suffix, 0
+	case "conf2-shorter":
+		r.IDs[3], r.IDs[0], shorter = short, short+suffix, 1
+	default:
+		r.IDs[0], r.IDs[3] = short, genName(t, "reg.conf2", 1, 3)
+	}
+	r.IDs[1] = genName(t, "reg.pub", 1, 3)
+	r.IDs[2] = genName(t, "reg.pkj", 1, 3)
+	seen := map[string]bool{}
+	for _, i := range []int{0, 3, 1, 2} {
+		for seen[r.IDs[i]] {
+			r.IDs[i] += "x"
+		}
+		seen[r.IDs[i]] = true
+	}
+	r.Secrets[0] = genName(t, "reg.secret0", 1, 4)
+	r.Secrets[1] = genName(t, "reg.secret1", 1, 4)
+	switch rapid.SampledFrom([]string{"", "", "", "begins-with-suffix", "begins-with-suffix", "same"}).Draw(t, "reg.secrets") {
+	case "begins-with-suffix":
+		// the secret of the client with the shorter id starts with what the longer id has more
+		if shorter >= 0 {
+			r.Secrets[shorter] = suffix + r.Secrets[shorter]
+		}
+	case "same":
+		r.Secrets[1] = r.Secrets[0]
+	}
+	r.Conf2.NoRefresh = rapid.IntRange(0, 11).Draw(t, "reg.norefresh") == 5
+	r.Conf2.JWTAT = rapid.Bool().Draw(t, "reg.jwtat")
+	r.Conf2Post = rapid.Bool().Draw(t, "reg.post")
+	return r
+}
+
+func genSecretOp(t *rapid.T, label string) Op {
+	op := Op{Kind: "secret", Client: rapid.IntRange(0, 1).Draw(t, label+"client")}
+	op.Change = rapid.SampledFrom([]string{"new", "new", "new", "remove", "previous", "others"}).Draw(t, label+"change")
+	op.New = genName(t, label+"new", 1, 4)
 	return op
 }
 
@@ -165,6 +240,10 @@ func genCase(t *rapid.T) Case {
 	}
 	// refresh-token policy of the storage: rotate (a new string per refresh) or keep (the presented string is the new one)
 	c.NoRotate = rapid.IntRange(0, 3).Draw(t, "norotate") == 0
+	// audience of every grant: the owner (always), and in 1 of 3 cases ids of further registered clients
+	if rapid.IntRange(0, 2).Draw(t, "audclients") == 0 {
+		c.AudClients = rapid.SampledFrom([]int{15, 15, 15, 1, 2, 4, 8, 3, 5, 6, 9, 10, 12, 7, 11, 13, 14}).Draw(t, "audmask")
+	}
 	return c
 }
 
@@ -179,6 +258,15 @@ func genCase0(t *rapid.T) Case {
 	c.RefreshOff = rapid.SampledFrom([]string{"", "", "", "", "", "", "provider", "legacy", "both"}).Draw(t, "refreshoff")
 	c.NarrowPersists = rapid.Bool().Draw(t, "narrowpersists")
 	c.ExtraAud = rapid.Bool().Draw(t, "extraaud")
+	if rapid.IntRange(0, 2).Draw(t, "regdata") != 0 {
+		c.Reg = genReg(t)
+		if rapid.Bool().Draw(t, "reg.bothissue") {
+			// both confidential clients hold a grant (and have authenticated at the code exchange)
+			a, b := genIssue(t, "ic."), genIssue(t, "ic2.")
+			a.Client, b.Client = 0, 3
+			c.Ops = append(c.Ops, a, b)
+		}
+	}
 	nIssue := rapid.IntRange(1, 3).Draw(t, "nissue")
 	for i := 0; i < nIssue; i++ {
 		c.Ops = append(c.Ops, genIssue(t, fmt.Sprintf("i%d.", i)))
@@ -187,11 +275,22 @@ func genCase0(t *rapid.T) Case {
 	for i := 0; i < n; i++ {
 		label := fmt.Sprintf("o%d.", i)
 		// SampledFrom favours the front of the list: single refresh ops first
-		switch rapid.SampledFrom([]string{"refresh", "refresh", "refresh", "refresh", "refresh", "refresh", "narrow-widen", "narrow-widen", "rotate-replay", "grant", "grant", "issue"}).Draw(t, label+"kind") {
+		switch rapid.SampledFrom([]string{"refresh", "refresh", "refresh", "refresh", "refresh", "refresh", "narrow-widen", "narrow-widen", "rotate-replay", "grant", "grant", "issue", "secret", "secret-then-old", "secret-then-old", "reg"}).Draw(t, label+"kind") {
 		case "issue":
 			c.Ops = append(c.Ops, genIssue(t, label))
 		case "grant":
-			c.Ops = append(c.Ops, Op{Kind: "grant", Client: rapid.IntRange(0, 2).Draw(t, label+"client"), On: rapid.IntRange(0, 2).Draw(t, label+"on") == 0})
+			c.Ops = append(c.Ops, Op{Kind: "grant", Client: rapid.IntRange(0, 3).Draw(t, label+"client"), On: rapid.IntRange(0, 2).Draw(t, label+"on") == 0})
+		case "reg":
+			c.Ops = append(c.Ops, Op{Kind: "reg", Client: rapid.IntRange(0, 3).Draw(t, label+"client"), On: rapid.IntRange(0, 2).Draw(t, label+"on") == 0})
+		case "secret":
+			c.Ops = append(c.Ops, genSecretOp(t, label))
+		case "secret-then-old":
+			// the storage changes the secret of a lineage's client; then that lineage is refreshed with a secret of the past (or the new one)
+			a := genSecretOp(t, label+"a.")
+			b := validRefresh(t, label+"b.")
+			a.ViaLin, a.Lin = true, b.Lin
+			b.Pres = rapid.SampledFrom([]string{"old_secret", "old_secret", "old_secret", "right"}).Draw(t, label+"pres")
+			c.Ops = append(c.Ops, a, b)
 		case "narrow-widen":
 			// a valid narrowing refresh followed by a request for more on the same lineage
 			a := validRefresh(t, label+"a.")
@@ -301,8 +400,11 @@ type world struct {
 	c        Case
 	res      *vkit.Result
 	st       *vkit.Store
-	specs    [3]*vkit.ClientSpec
-	hasGrant [3]bool
+	n        int // number of clients: 3, with Case.Reg 4
+	specs    []*vkit.ClientSpec
+	hasGrant []bool
+	exists   []bool         // the storage knows the client
+	past     [][]string     // secrets the storage accepted for the client earlier in the history (oldest first)
 	agents   [2]*vkit.Agent // 0 provider router, 1 legacy router
 	off      [2]bool
 	lins     []*lineage
@@ -344,7 +446,14 @@ func redirectOf(i int) string {
 	return "https://rp.example.com/cb"
 }
 
-func clientName(i int) string { return []string{"conf", "pub", "pkj"}[i] }
+func clientName(i int) string { return []string{"conf", "pub", "pkj", "conf2"}[i] }
+
+func redirectOf4(i int) string {
+	if i == 3 {
+		return "https://rp2.example.com/cb"
+	}
+	return redirectOf(i)
+}
 
 func grantsFor(refresh bool) []string {
 	if refresh {
@@ -355,16 +464,42 @@ func grantsFor(refresh bool) []string {
 
 func newWorld(c Case, res *vkit.Result) *world {
 	w := &world{c: c, res: res, known: map[string]bool{}, labels: map[string]bool{}, gateJ0: -1}
-	w.specs[0] = &vkit.ClientSpec{ID: "conf", Secret: "secret-conf", AppType: "web", AuthMethod: c.Conf}
-	w.specs[1] = &vkit.ClientSpec{ID: "pub", AppType: "native", AuthMethod: "none"}
-	w.specs[2] = &vkit.ClientSpec{ID: "pkj", AppType: "web", AuthMethod: "private_key_jwt", Keys: map[string]string{"kj": "rsa2"}}
+	w.specs = []*vkit.ClientSpec{
+		{ID: "conf", Secret: "secret-conf", AppType: "web", AuthMethod: c.Conf},
+		{ID: "pub", AppType: "native", AuthMethod: "none"},
+		{ID: "pkj", AppType: "web", AuthMethod: "private_key_jwt", Keys: map[string]string{"kj": "rsa2"}},
+	}
+	cfgs := append([]ClientCfg{}, c.Clients[:]...)
+	if r := c.Reg; r != nil {
+		m := "client_secret_basic"
+		if r.Conf2Post {
+			m = "client_secret_post"
+		}
+		w.specs = append(w.specs, &vkit.ClientSpec{AppType: "web", AuthMethod: m})
+		cfgs = append(cfgs, r.Conf2)
+		seen := map[string]bool{}
+		for i, s := range w.specs {
+			s.ID = r.IDs[i]
+			for s.ID == "" || seen[s.ID] { // hand-written / fuzzed cases: keep the ids distinct and non-empty
+				s.ID += fmt.Sprintf("x%d", i)
+			}
+			seen[s.ID] = true
+		}
+		w.specs[0].Secret, w.specs[3].Secret = r.Secrets[0], r.Secrets[1]
+		w.label("reg:names-as-data")
+		if a, b := w.specs[0].ID, w.specs[3].ID; strings.HasPrefix(a, b) || strings.HasPrefix(b, a) {
+			w.label("reg:id-is-prefix-of-other-id")
+		}
+	}
+	w.n = len(w.specs)
+	w.hasGrant, w.exists, w.past = make([]bool, w.n), make([]bool, w.n), make([][]string, w.n)
 	for i, s := range w.specs {
-		w.hasGrant[i] = !c.Clients[i].NoRefresh
+		w.hasGrant[i], w.exists[i] = !cfgs[i].NoRefresh, true
 		s.GrantTypes = grantsFor(w.hasGrant[i])
 		s.ResponseTypes = []string{"code"}
-		s.RedirectURIs = []string{redirectOf(i)}
+		s.RedirectURIs = []string{redirectOf4(i)}
 		s.AllowedScopes = []string{vkit.CustomScope}
-		s.JWTAccessToken = c.Clients[i].JWTAT
+		s.JWTAccessToken = cfgs[i].JWTAT
 	}
 	sk := vkit.SignKeySpec{KeyName: "p256a", Alg: "ES256", KID: "sig-es"}
 	if c.SignAlg == "RS256" {
@@ -374,7 +509,13 @@ func newWorld(c Case, res *vkit.Result) *world {
 	if c.ExtraAud {
 		pol.ExtraAudience = []string{"https://api.example.com"}
 	}
-	w.st = vkit.NewStore(w.specs[:], sk, pol)
+	for i, s := range w.specs {
+		if c.AudClients&(1<<i) != 0 {
+			pol.ExtraAudience = append(pol.ExtraAudience, s.ID)
+			w.label("aud:names-registered-clients")
+		}
+	}
+	w.st = vkit.NewStore(w.specs, sk, pol)
 	w.off[0] = c.RefreshOff == "provider" || c.RefreshOff == "both"
 	w.off[1] = c.RefreshOff == "legacy" || c.RefreshOff == "both"
 	for i, router := range []string{"provider", "legacy"} {
@@ -431,11 +572,11 @@ func scopeField(r *vkit.Resp) []string {
 func (w *world) tables() (int, int) { return len(w.st.Refresh), len(w.st.Tokens) }
 
 func (w *world) issue(i int, op Op) {
-	ci := op.Client % 3
+	ci := op.Client % w.n
 	cl := w.specs[ci]
 	user := vkit.AllUserIDs[op.User%len(vkit.AllUserIDs)]
 	ag := w.agents[b2i(op.Legacy)]
-	q := vkit.AuthParams(cl, redirectOf(ci), "code", strings.Join(op.Scopes, " "), "st", fmt.Sprintf("nonce-%d", i))
+	q := vkit.AuthParams(cl, redirectOf4(ci), "code", strings.Join(op.Scopes, " "), "st", fmt.Sprintf("nonce-%d", i))
 	verifier := ""
 	if cl.AuthMethod == "none" {
 		verifier = fmt.Sprintf("verifier-%d-abcdefghijklmnopqrstuvwxyz0123456789abcdef", i)
@@ -447,7 +588,7 @@ func (w *world) issue(i int, op Op) {
 		w.label("issue:no-code")
 		return
 	}
-	r := ag.Token(vkit.CodeExchangeForm(fl.Code, redirectOf(ci), verifier), vkit.RightCred(cl, issuer))
+	r := ag.Token(vkit.CodeExchangeForm(fl.Code, redirectOf4(ci), verifier), vkit.RightCred(cl, issuer))
 	if r.Panic != nil {
 		w.res.Fail("C07:panic@"+r.PanicFrame(), "op %d: code exchange panicked: %v", i, r.Panic)
 		w.stop = true
@@ -518,6 +659,20 @@ func (w *world) present(ci int, pres string, sel int) (cred vkit.Cred, ok bool, 
 		return vkit.Cred{Kind: "none", ClientID: cl.ID}, true, "public-identified"
 	}
 	switch pres {
+	case "old_secret", "other_secret", "shifted_secret":
+		secret, kind := w.builtSecret(ci, pres, sel)
+		// the named client is authenticated iff the string is what the storage accepts for it NOW, however it was arrived at
+		ok = cl.Secret != "" && secret == cl.Secret
+		if ok {
+			kind = "authenticated:" + cl.AuthMethod + ":" + kind + "-equals-current"
+		}
+		cred = vkit.Cred{Kind: "post", ClientID: cl.ID, Secret: secret}
+		if cl.AuthMethod == "client_secret_basic" {
+			cred.Kind = "basic"
+		}
+		return cred, ok, kind
+	}
+	switch pres {
 	case "wrong_secret":
 		return vkit.Cred{Kind: "post", ClientID: cl.ID, Secret: "not-the-secret"}, false, "wrong-secret"
 	case "id_only":
@@ -527,7 +682,45 @@ func (w *world) present(ci int, pres string, sel int) (cred vkit.Cred, ok bool, 
 		a := vkit.AssertionWith(cl.ID, cl.ID, []string{issuer}, "kj", "rsa3", time.Now().Add(-5*time.Second), time.Now().Add(5*time.Minute), nil)
 		return vkit.Cred{Kind: "assertion", Assertion: a}, false, "bad-assertion"
 	}
+	if cl.AuthMethod != "private_key_jwt" && cl.Secret == "" {
+		// the storage holds no secret for the client (any more): nothing it could present authenticates it
+		return vkit.RightCred(cl, issuer), false, "secret-removed"
+	}
 	return vkit.RightCred(cl, issuer), true, "authenticated:" + cl.AuthMethod
+}
+
+// builtSecret builds a secret string for a request that names client ci out of what the storage knows or knew.
+func (w *world) builtSecret(ci int, pres string, sel int) (string, string) {
+	cl := w.specs[ci]
+	pick := sel >> 3
+	var others []*vkit.ClientSpec // the other clients that hold a secret
+	for j, s := range w.specs {
+		if j != ci && s.Secret != "" {
+			others = append(others, s)
+		}
+	}
+	switch pres {
+	case "old_secret":
+		if h := w.past[ci]; len(h) > 0 {
+			return h[len(h)-1-pick%len(h)], "old-secret"
+		}
+	case "shifted_secret":
+		// cl.ID + s == other.ID + other.Secret with s != "": whoever compares (or remembers) id and secret glued together is fooled
+		var cand []string
+		for _, o := range others {
+			whole := o.ID + o.Secret
+			if strings.HasPrefix(whole, cl.ID) && len(whole) > len(cl.ID) && o.ID != cl.ID {
+				cand = append(cand, whole[len(cl.ID):])
+			}
+		}
+		if len(cand) > 0 {
+			return cand[pick%len(cand)], "shifted-secret"
+		}
+	}
+	if pres != "old_secret" && len(others) > 0 {
+		return others[pick%len(others)].Secret, "other-client-secret"
+	}
+	return "not-the-secret", "wrong-secret"
 }
 
 func isUnident(pres string) bool {
@@ -760,9 +953,11 @@ func (w *world) prepare(i int, op Op) *attempt {
 		}
 		w.label("unknown-token:" + kind)
 	}
-	caller := op.Client % 3
-	if l != nil {
-		caller = (l.client + op.Who) % 3
+	caller := op.Client % w.n
+	if l != nil && op.Who > 0 {
+		caller = (l.client + 1 + (op.Who-1)%(w.n-1)) % w.n // never the owner
+	} else if l != nil {
+		caller = l.client
 	}
 	unident := isUnident(op.Pres)
 	if unident && l != nil {
@@ -825,7 +1020,9 @@ func (w *world) prepare(i int, op Op) *attempt {
 		if !authOK {
 			reasons = append(reasons, "unauthenticated")
 		}
-		if !w.hasGrant[caller] {
+		if !w.exists[caller] {
+			reasons = append(reasons, "client-deleted")
+		} else if !w.hasGrant[caller] {
 			reasons = append(reasons, "client-not-registered")
 		}
 	}
@@ -851,6 +1048,19 @@ func (w *world) prepare(i int, op Op) *attempt {
 	// bookkeeping for the non-triviality rule
 	if state == "live" && caller != l.client {
 		w.foreignTried = true
+		if !unident && toSet(l.aud)[w.specs[caller].ID] {
+			// the audience of a grant says who may be SENT the tokens, the binding is to the client they were issued to
+			w.label("foreign:named-in-audience:"+a.router, "foreign:named-in-audience:"+presKind)
+			if authOK && w.exists[caller] && w.hasGrant[caller] && !w.off[ri] {
+				w.label("foreign:named-in-audience:nothing-else-wrong:" + a.router)
+			}
+		}
+	}
+	if state == "live" && !unident && caller == l.client && !authOK {
+		switch presKind {
+		case "old-secret", "shifted-secret", "other-client-secret", "secret-removed":
+			w.label("owner:" + presKind + ":" + a.router)
+		}
 	}
 	if state == "live" && unident {
 		w.unidentTried = true
@@ -1119,8 +1329,8 @@ func (w *world) judgeIssued(a *attempt, snap vkit.RefreshTok, exclusive bool) bo
 	}
 	if op.Introspect && l.client != 1 && exclusive {
 		ic := vkit.RightCred(w.specs[l.client], issuer)
-		if l.client == 0 {
-			ic = vkit.Cred{Kind: "basic", ClientID: "conf", Secret: "secret-conf"}
+		if l.client == 0 || l.client == 3 {
+			ic = vkit.Cred{Kind: "basic", ClientID: w.specs[l.client].ID, Secret: w.specs[l.client].Secret}
 		}
 		in := a.ag.Introspect(resp.Str("access_token"), ic)
 		if m := in.JSON(); in.Success() && m != nil && m["active"] == true {
@@ -1180,6 +1390,78 @@ func (w *world) step(a *attempt, newRT string, issued, granted []string) {
 	}
 }
 
+// setRegistered deletes a client from the storage / registers it again (same registration; tokens issued to it stay where they are).
+func (w *world) setRegistered(ci int, on bool) {
+	if w.exists[ci] == on {
+		return
+	}
+	w.exists[ci] = on
+	if on {
+		w.st.Clients[w.specs[ci].ID] = w.specs[ci]
+		w.label("reg:client-registered-again")
+	} else {
+		delete(w.st.Clients, w.specs[ci].ID)
+		w.label("reg:client-deleted")
+	}
+}
+
+// changeSecret: the storage's view of a confidential client's secret changes between two requests.
+func (w *world) changeSecret(op Op) {
+	var secretClients []int
+	for i, s := range w.specs {
+		if s.AuthMethod == "client_secret_basic" || s.AuthMethod == "client_secret_post" {
+			secretClients = append(secretClients, i)
+		}
+	}
+	sel := op.Client
+	if sel < 0 {
+		sel = -sel
+	}
+	ci := secretClients[sel%len(secretClients)]
+	if op.ViaLin && len(w.lins) > 0 {
+		lin := op.Lin
+		if lin < 0 {
+			lin = -lin
+		}
+		if lc := w.lins[lin%len(w.lins)].client; lc == 0 || lc == 3 {
+			ci = lc // the lineage's client holds a secret
+		}
+	}
+	cl := w.specs[ci]
+	next := op.New
+	switch op.Change {
+	case "remove":
+		next = ""
+	case "previous":
+		if len(w.past[ci]) > 0 {
+			next = w.past[ci][0]
+		}
+	case "others":
+		for _, j := range secretClients {
+			if j != ci && w.specs[j].Secret != "" {
+				next = w.specs[j].Secret
+			}
+		}
+	}
+	if next == cl.Secret {
+		w.label("secret:unchanged")
+		return
+	}
+	if cl.Secret != "" {
+		w.past[ci] = append(w.past[ci], cl.Secret)
+	}
+	// whether a string of the past is wrong NOW is decided when it is used (present): the storage may have gone back to it
+	cl.Secret = next
+	switch {
+	case next == "":
+		w.label("secret:removed")
+	case op.Change == "previous" || op.Change == "others":
+		w.label("secret:" + op.Change)
+	default:
+		w.label("secret:rotated")
+	}
+}
+
 func linDesc(l *lineage) string {
 	if l == nil {
 		return "-"
@@ -1213,8 +1495,12 @@ loop:
 		switch op.Kind {
 		case "issue":
 			w.issue(i, op)
+		case "reg":
+			w.setRegistered(op.Client%w.n, op.On)
+		case "secret":
+			w.changeSecret(op)
 		case "grant":
-			ci := op.Client % 3
+			ci := op.Client % w.n
 			w.hasGrant[ci] = op.On
 			w.specs[ci].GrantTypes = grantsFor(op.On)
 			if op.On {
@@ -1286,8 +1572,8 @@ loop:
 
 var prop = vkit.Prop[Case]{
 	ID: "C07",
-	Rule: "cases = histories on two deployments sharing one storage (op.Provider router / LegacyServer router chosen per op; refresh grant disabled on none / one / both): 1-3+ code exchanges (openid, mostly offline_access, random further scopes) by a confidential (basic|post), a public PKCE and a private_key_jwt client, then up to 14 (thorough 28) ops: refresh(token = live / rotated / unknown{random,flipped,suffixed,access token,empty} of lineage #k; caller = owner / foreign client; presentation = right (optionally plus client_id=<owner> next to Basic / assertion) / wrong secret / client_id only / assertion by unregistered key / no client named at all, for tokens of every client kind {nothing: no client_id, no Authorization header, no assertion; client_id=; client_id= plus a secret; Basic with an empty user; empty client_assertion}; scope = absent / equal / permuted / subset / duplicate / full original / superset / widen-back / disjoint / empty / stray spaces; parameter placement = POST body / grant_type in the URL query / refresh_token in the URL query / client_id only in the URL query / everything in the URL query / GET; narrow->ask-for-more and rotate->replay pairs are generated on purpose), withdraw / restore a client's refresh grant, further code exchanges; storage policy narrowing persists on/off, refresh-token policy of the storage rotate (new string per refresh) / keep (1 in 4 cases: the storage answers the rotation call with the presented string, the token stays live), storage error styles, extra audience, opaque / JWT access tokens; " +
-		"oracle = lineage model (must-accept iff owner + authenticated/identified + registered + enabled + live + scope within current grant; a request that names no client is must-refuse whatever the token's client is; empty scope-tokens grey; with parameters outside the body serving is not demanded (grey) but every refusal reason still binds and a success is judged in full) with journal assertions (exactly one CreateAccessAndRefreshTokens(current = presented) on success, no Create* and unchanged tables on refusal), response refresh_token = what the storage answered to that call (rotating storage: the record created by it, old token dead; keeping storage: the presented string, still live, refresh table unchanged), id_token sub/aud/auth_time and access-token sub/aud continuity, scope of every issuance within the current grant; " +
+	Rule: "cases = histories on two deployments sharing one storage (op.Provider router / LegacyServer router chosen per op; refresh grant disabled on none / one / both): 1-3+ code exchanges (openid, mostly offline_access, random further scopes) by a confidential (basic|post), a public PKCE and a private_key_jwt client - in 2 of 3 cases registrations are data: a second confidential client, ids and secrets of all clients = strings of 1-4 letters over {a,b,1} (ids of the two confidential clients prefixes / extensions of each other in 2 of 3 of those, the secret of the shorter one often starting with what the longer id has more, sometimes one secret for both), often with a code exchange by both confidential clients first -, then up to 14 (thorough 28) ops: refresh(token = live / rotated / unknown{random,flipped,suffixed,access token,empty} of lineage #k; caller = owner / foreign client; presentation = right (optionally plus client_id=<owner> next to Basic / assertion) / wrong secret / a secret built from what the storage knows or knew {a secret the client had earlier in the history, another client's current secret, the string s with callerID+s == otherID+otherSecret} (authenticates iff it equals the named client's current secret) / client_id only / assertion by unregistered key / no client named at all, for tokens of every client kind {nothing: no client_id, no Authorization header, no assertion; client_id=; client_id= plus a secret; Basic with an empty user; empty client_assertion}; scope = absent / equal / permuted / subset / duplicate / full original / superset / widen-back / disjoint / empty / stray spaces; parameter placement = POST body / grant_type in the URL query / refresh_token in the URL query / client_id only in the URL query / everything in the URL query / GET; narrow->ask-for-more and rotate->replay pairs are generated on purpose), withdraw / restore a client's refresh grant, the storage changes a confidential client's secret between requests (new value / removed / back to an earlier value / the other client's value; pairs change->refresh-with-an-earlier-secret are generated on purpose), delete a client from the storage / register it again (its tokens stay), further code exchanges; storage policy narrowing persists on/off, refresh-token policy of the storage rotate (new string per refresh) / keep (1 in 4 cases: the storage answers the rotation call with the presented string, the token stays live), storage error styles, extra audience (an API; in 1 of 3 cases the ids of all / some registered clients - the storage puts every application of a project into the audience of a grant, so foreign callers are named in the audience of the token they present), opaque / JWT access tokens; " +
+		"oracle = lineage model (must-accept iff owner + authenticated/identified + registered + enabled + live + scope within current grant; authenticated = the presented secret is the one the storage holds for the named client at the time of THIS request (no secret held: nothing authenticates); a deleted client is not registered; being named in the audience changes nothing: the binding is to the client the token was issued to; a request that names no client is must-refuse whatever the token's client is; empty scope-tokens grey; with parameters outside the body serving is not demanded (grey) but every refusal reason still binds and a success is judged in full) with journal assertions (exactly one CreateAccessAndRefreshTokens(current = presented) on success, no Create* and unchanged tables on refusal), response refresh_token = what the storage answered to that call (rotating storage: the record created by it, old token dead; keeping storage: the presented string, still live, refresh table unchanged), id_token sub/aud/auth_time and access-token sub/aud continuity, scope of every issuance within the current grant; " +
 		"non-trivial = a lineage with >=2 successful refreshes containing a narrowing and a later request for more than the previous issuance, or a foreign-client attempt on a live token, or an attempt on a live token by a caller that names no client, or a replay of a rotated token; distinct = (narrow policy, rotation policy, disabled deployments, sequence of router/verdict+reasons/scope kind/caller/placement per refresh op)",
 	Gen: genCase,
 	Run: run,
